@@ -16,6 +16,7 @@ import (
 	"encoding/json"
 	"fmt"
 	"math/big"
+	"net"
 	"sync"
 	"sync/atomic"
 	"time"
@@ -74,6 +75,91 @@ func schedInjection(res *core.Result, r *core.RNG) (*sim, error) {
 		w.SnapHop()
 	}
 	return s, nil
+}
+
+// (b0) bursts on the real UDP socket from one sender: distinct (device, slot) reports back to back, so
+// that the listener reads the next datagram while handlers of the previous ones are still running.
+// Afterwards every slot must hold exactly the single report sent for it, unknown garbage interleaved
+// must change nothing.  A burst whose datagrams did not all reach a handler (kernel drop) is
+// discarded and repeated, never judged.
+func schedBurst(res *core.Result, r *core.RNG) error {
+	s, err := started(res, r, "sched-burst", 900, true, 1<<20, 1<<20)
+	if err != nil {
+		return err
+	}
+	w := s.w
+	_, _, up := w.S.Ports()
+	conn, err := net.Dial("udp", fmt.Sprintf("127.0.0.1:%d", up))
+	if err != nil {
+		return err
+	}
+	defer conn.Close()
+	judged := 0
+	for round := 0; round < 6 && judged < 3; round++ {
+		type one struct {
+			id, ts uint32
+			p      uint64
+		}
+		var sent []one
+		var dgs [][]byte
+		base := w.Now - 400 + uint32(round)*70
+		for k := 0; k < 32; k++ {
+			for _, d := range s.a.Devices {
+				ts := base + uint32(k)
+				pw := uint64(1000 + r.Intn(500000))
+				sig := glow.Sign(refReportSigningBytes(d.ID, ts, pw), d.K.Priv)
+				dgs = append(dgs, refReportBytes(d.ID, ts, pw, sig))
+				sent = append(sent, one{d.ID, ts, pw})
+			}
+			if k%8 == 3 {
+				dgs = append(dgs, r.Bytes(80))
+			}
+		}
+		before := srvHandled()
+		for _, d := range dgs {
+			conn.Write(d)
+		}
+		ok := false
+		for i := 0; i < 1500; i++ {
+			if srvHandled()-before >= int64(len(dgs)) {
+				ok = true
+				break
+			}
+			time.Sleep(2 * time.Millisecond)
+		}
+		if !ok {
+			res.Discarded++
+			continue
+		}
+		judged++
+		res.Count("sched.burst")
+		sn := w.S.VerifSnapshot()
+		have := map[slotKey]uint64{}
+		for id, slots := range sn.Reports {
+			for _, sl := range slots {
+				have[slotKey{id, sn.Offset + uint32(sl.Index)}] = sl.Report.PowerOutput
+			}
+		}
+		bad, first := 0, ""
+		for _, x := range sent {
+			if got := have[slotKey{x.id, x.ts}]; got != x.p {
+				bad++
+				if first == "" {
+					first = fmt.Sprintf("device %d slot %d: sent power %d, the server holds %d", x.id, x.ts, x.p, got)
+				}
+			}
+		}
+		if bad > 0 {
+			s.fail(fmt.Sprintf("%d datagrams sent back to back on the UDP socket all reached a handler, but %d of the %d device-timeslots do not hold their single valid report (%s)", len(dgs), bad, len(sent), first), "burst-not-recorded")
+		}
+	}
+	if judged == 0 {
+		w.Failed = "no burst was delivered completely"
+	}
+	if p := w.Close(); p != "" {
+		s.fail("server consistency check (CheckInvariants) panics after the burst: "+p, "checkinvariants-panic")
+	}
+	return nil
 }
 
 // (b1) devices banned while their datagrams are in flight on the real UDP socket
@@ -338,6 +424,9 @@ func schedWorker(res *core.Result, r *core.RNG, tier, out string) error {
 			return err
 		}
 		s.finish(&items)
+		if err := schedBurst(res, r.Fork()); err != nil {
+			return err
+		}
 		if err := schedBanInFlight(res, r.Fork()); err != nil {
 			return err
 		}
@@ -348,8 +437,8 @@ func schedWorker(res *core.Result, r *core.RNG, tier, out string) error {
 			return err
 		}
 	}
-	res.Required = []string{"sched.inject:ban-captured-device", "sched.inject:rotate", "sched.ban-in-flight", "sched.mix", "sched.list-vs-sync"}
-	res.Rule = "injection of every menu operation between the impact job's two critical sections (compared with the model); devices banned while their datagrams are in flight on the real socket; many-goroutine mix of UDP reports, statistics (with insert_false_negatives), equipment, archive, sync, recent-reports requests and impact rounds, judged against the order-independent report rule; announcements of new authorized servers against devices syncing in a loop with a liveness probe; (mix) judged against the order-independent report rule; -race build in the thorough tier"
+	res.Required = []string{"sched.inject:ban-captured-device", "sched.inject:rotate", "sched.burst", "sched.ban-in-flight", "sched.mix", "sched.list-vs-sync"}
+	res.Rule = "injection of every menu operation between the impact job's two critical sections (compared with the model); bursts of distinct reports back to back on the real UDP socket (every slot must hold its report); devices banned while their datagrams are in flight on the real socket; many-goroutine mix of UDP reports, statistics (with insert_false_negatives), equipment, archive, sync, recent-reports requests and impact rounds, judged against the order-independent report rule; announcements of new authorized servers against devices syncing in a loop with a liveness probe; (mix) judged against the order-independent report rule; -race build in the thorough tier"
 	return writeServerCases(res, out, "sched", items)
 }
 
